@@ -721,6 +721,24 @@ func finishCheck(ck *Check, tier universe.Tier, tierS, self string, results []*P
 				cbin = os.Getenv("VERIF_RACE_BIN")
 			}
 			conf := confirm(cbin, ck.ID, tierS, path, 5)
+			if conf == 0 && f.Class == "worker-death" && strings.Contains(f.Msg, "out of memory") {
+				// a worker ran out of its address-space limit on a case that needs no such memory when run alone:
+				// memory held by the harness itself (cached value alphabets), not a finding about the library -
+				// a cap on this run's coverage, not an error
+				for _, r := range results {
+					if r.Phase == f.Phase {
+						note := "a worker exhausted its memory limit (case not reproducible alone: harness memory); the rest of its shard was resumed"
+						if !strings.Contains(r.CapHit, note) {
+							if r.CapHit != "" {
+								r.CapHit += "; "
+							}
+							r.CapHit += note
+						}
+					}
+				}
+				os.Remove(path)
+				continue
+			}
 			if conf == 0 {
 				harnessErrs = append(harnessErrs, fmt.Sprintf("failure did not reproduce in any of 5 fresh-process replays (treated as harness error, not a violation): %s replay=%s", f.Msg, path))
 				continue
